@@ -56,6 +56,9 @@ var c15Callbacks = []func() jast.Node{
 		return lam([]string{"v", "i"}, &jast.Cond{If: &jast.Bin{Op: "=", L: v("i"), R: &jast.Num{V: 1}}, Then: &jast.Name{V: "nothing"}, Else: &jast.Array{Items: []jast.Node{v("v")}}})
 	},
 	func() jast.Node { return &jast.Apply{L: v("string"), R: v("length")} },
+	// declared with no parameters: must be called without arguments
+	func() jast.Node { return &jast.Lambda{Params: nil, Sig: ":s", Body: &jast.Str{V: "typed0"}} },
+	func() jast.Node { return &jast.Lambda{Params: []string{"v"}, Sig: "x:x", Body: obj("v", v("v"))} },
 }
 
 var c15Preds = []func() jast.Node{
@@ -71,6 +74,7 @@ var c15Preds = []func() jast.Node{
 	func() jast.Node { return lam([]string{"v"}, &jast.Bin{Op: "=", L: v("v"), R: obj("a", &jast.Num{V: 1})}) },
 	func() jast.Node { return v("boolean") },
 	func() jast.Node { return lam([]string{"v"}, v("v")) },
+	func() jast.Node { return &jast.Lambda{Params: nil, Sig: ":b", Body: &jast.Bool{V: true}} },
 }
 
 var c15Folds = []func() jast.Node{
